@@ -409,6 +409,19 @@ Section C06_maintenance_refines.
     exists x, In x (s_nodes Store s) /\ same_node (addr_key (n_addr n)) (n_id n) x = true /\
               m = apply_update (s_now Store s) UFailedPing x.
   Proof. exact (failed_ping_step_flags Store w_put w_get sha1 id_secure cfg s n m). Qed.
+  Theorem C06_maint_answered_ping_is_server_event (s : sstate Store) (n : node) (size : N) (m : msg) (x : txn) :
+    In n (s_nodes Store s) -> n_slot n = slot_of cfg (n_id n) -> N.eqb (n_id n) (c_root cfg) = false ->
+    N.eqb size (Z.to_N udp_buf) = false -> N.eqb (port (n_addr n)) 0 = false ->
+    s_closed Store s = false -> blocked (s_blocklist Store s) (ip (n_addr n)) = false ->
+    bytes_eqb (m_y m) s_q = false ->
+    option_map id_of (sender_id m) = Some (n_id n) ->
+    find (txn_match (addr_key (n_addr n)) (m_t m)) (s_pending Store s) = Some x ->
+    exists s',
+      step Store w_put w_get sha1 id_secure cfg s (EPacket (n_addr n) size (Some m)) no_choice =
+      SR Store s' [ECompleted (tx_qid x) m] /\
+      s_nodes Store s' =
+      replace_node cfg (addr_key (n_addr n)) (n_id n) (apply_update (s_now Store s) UResponse) (s_nodes Store s).
+  Proof. exact (answered_ping_is_server_event Store w_put w_get sha1 id_secure cfg s n size m x). Qed.
 End C06_maintenance_refines.
 
 (* non-vacuity: a bucket with a good entry, a questionable one that answers and one that does not: two pings,
@@ -464,3 +477,4 @@ Print Assumptions C06_maint_pass_keeps_good.
 Print Assumptions C06_maint_nonvacuous.
 Print Assumptions C06_maint_failed_ping_is_server_event.
 Print Assumptions C06_maint_failed_ping_step_flags.
+Print Assumptions C06_maint_answered_ping_is_server_event.
